@@ -1,3 +1,9 @@
-/-! # C20 — (stub: property theorems go here; see docs/BUILDING.md) -/
+import PtVerif.Model.Ancillary
+import PtVerif.Generated.Ancillary
+/-! # C20 — placeholder while the pipeline is brought up -/
 namespace PtVerif.C20
+open PtLoad
+
+theorem placeholder : splitState "V2 ".toList = some (['V'], 2) := by decide
+
 end PtVerif.C20
